@@ -28,6 +28,10 @@ func checkLive(prop string, o *Outcome) []Violation {
 		}
 		vs = append(vs, v(prop, "panic", "task %s (%s) panicked: %s", p.ID, p.Site, first))
 	}
+	if o.Sim.Abandoned {
+		// the run was given up for taking too long in real time: inconclusive
+		return vs
+	}
 	if !o.Sim.MainReturned && len(vs) == 0 {
 		if o.Sim.StepLimit {
 			vs = append(vs, v(prop, "hang", "step budget %d exhausted, workflow has not returned; tasks: %s", o.Sim.Steps, leakStr(o)))
